@@ -11,6 +11,9 @@ open AGV.Core AGV.Core.PAst AGV.Core.Sdl AGV.Model.Sdl AGV.Spec.Literal AGV.Spec
 /-- an argument of a directive definition as written: no description, no directive applications -/
 def bare (x : InputVal) : InputVal := { x with a := {} }
 
+theorem fedAttrs_bare (o : Opts) : fedAttrs Defects.none o {} = [] := by
+  simp [fedAttrs, writeTags]
+
 theorem argumentSdl_bare (x : InputVal) : argumentSdl x = writeInputValue Defects.none (bare x) := by
   simp [argumentSdl, writeInputValue, bare, writeDeprecated]
 
@@ -25,13 +28,13 @@ structure SkelDirDef (d : DirDef) : Prop where
   locsNe : d.locs ≠ []
   locs : d.locs.all directiveLocations.contains = true
 
-def dirDefToks (d : DirDef) : List Tok :=
+def dirDefToks (o : Opts) (d : DirDef) : List Tok :=
   descToks d.desc ++ (.name (kw "directive") :: .punct '@' :: .name d.name ::
-    ((if d.args.isEmpty then [] else .punct '(' :: ivsToks (d.args.map bare) ++ [.punct ')']) ++
+    ((if d.args.isEmpty then [] else .punct '(' :: ivsToks o (d.args.map bare) ++ [.punct ')']) ++
      ((if d.repeatable then [.name (kw "repeatable")] else []) ++ (.name (kw "on") :: sepToks '|' d.locs))))
 
-theorem pDef_dirDef (o : Opts) (ho : o.federation = false) (d : DirDef) (hd : SkelDirDef d) (rest : List Tok) (hr : DefEnd rest) :
-    pDef (dirDefToks d ++ rest) = some (dDirective d, rest) := by
+theorem pDef_dirDef (o : Opts) (d : DirDef) (hd : SkelDirDef d) (rest : List Tok) (hr : DefEnd rest) :
+    pDef (dirDefToks o d ++ rest) = some (dDirective d, rest) := by
   have hn := pNamesAfter_toks '|' d.locs hd.locsNe rest (by intro r e; cases hr <;> cases e)
   have e1 : kw "directive" ≠ kw "extend" := by decide
   have e2 : kw "directive" ≠ kw "schema" := by decide
@@ -42,9 +45,9 @@ theorem pDef_dirDef (o : Opts) (ho : o.federation = false) (d : DirDef) (hd : Sk
   · cases hrep : d.repeatable <;>
     simp [dirDefToks, he, hrep, pDef, pDesc_descToks, e1, e2, e3, pArgsDef, hn, hd.locs, dDirective]
   · have hne : d.args.isEmpty = false := by simpa using he
-    have hargs := fun R g hg => pInputValues_toks o ho ')' (Or.inl rfl) (d.args.map bare) (by simpa using he)
+    have hargs := fun R g hg => pInputValues_toks o ')' (Or.inl rfl) (d.args.map bare) (by simpa using he)
       (by intro x hx; obtain ⟨y, hy, rfl⟩ := List.mem_map.mp hx; exact hd.args y hy) R g hg
-    have hlen := ivsToks_length (d.args.map bare)
+    have hlen := ivsToks_length o (d.args.map bare)
     cases hrep : d.repeatable
     · simp only [dirDefToks, hne, hrep, Bool.false_eq_true, if_false, List.cons_append, List.append_assoc, List.nil_append,
         pDef, pDesc_descToks, e1, e2, if_true, pArgsDef]
@@ -56,26 +59,26 @@ theorem pDef_dirDef (o : Opts) (ho : o.federation = false) (d : DirDef) (hd : Sk
       simp [hn, hd.locs, dDirective, hmap, hrep]
 
 
-theorem Lx_dirDefArgs (o : Opts) (ho : o.federation = false) : ∀ (xs : List InputVal), xs ≠ [] → (∀ x ∈ xs, SkelIv (bare x)) →
+theorem Lx_dirDefArgs (o : Opts) : ∀ (xs : List InputVal), xs ≠ [] → (∀ x ∈ xs, SkelIv (bare x)) →
     ∀ (rest : Text) (ts : List Tok), Lx rest ts →
-    Lx (joinSep (s ", ") (xs.map argumentSdl) ++ ')' :: rest) (ivsToks (xs.map bare) ++ .punct ')' :: ts)
+    Lx (joinSep (s ", ") (xs.map argumentSdl) ++ ')' :: rest) (ivsToks o (xs.map bare) ++ .punct ')' :: ts)
   | [], hne, _, _, _, _ => absurd rfl hne
   | [x], _, hx, rest, ts, h => by
-    have := Lx_inputValue o ho (bare x) (hx x List.mem_cons_self) (')' :: rest) (.punct ')' :: ts)
+    have := Lx_inputValue o (bare x) (hx x List.mem_cons_self) (')' :: rest) (.punct ')' :: ts)
       (valEnd_punct _ _ (by decide)) (Lx.punct (by decide) h)
     have e : (bare x).a = {} := rfl
-    simpa [joinSep, ivsToks, ivToks, descToks, argumentSdl_bare, fedAttrs_off o ho, e, dirApps, List.append_assoc] using this
+    simpa [joinSep, ivsToks, ivToks, descToks, argumentSdl_bare, fedAttrs_bare o, e, dirApps, List.append_assoc] using this
   | x :: y :: r, _, hx, rest, ts, h => by
-    have h0 := Lx_dirDefArgs o ho (y :: r) (by simp) (fun z hz => hx z (List.mem_cons_of_mem _ hz)) rest ts h
+    have h0 := Lx_dirDefArgs o (y :: r) (by simp) (fun z hz => hx z (List.mem_cons_of_mem _ hz)) rest ts h
     have h1 := Lx.ign (c := ',') (by decide) (Lx.ign (c := ' ') (by decide) h0)
-    have := Lx_inputValue o ho (bare x) (hx x List.mem_cons_self) _ _ (valEnd_ign ',' _ (by decide)) h1
+    have := Lx_inputValue o (bare x) (hx x List.mem_cons_self) _ _ (valEnd_ign ',' _ (by decide)) h1
     have e : (bare x).a = {} := rfl
-    simpa [joinSep, ivsToks, ivToks, descToks, argumentSdl_bare, fedAttrs_off o ho, e, dirApps, s, List.append_assoc] using this
+    simpa [joinSep, ivsToks, ivToks, descToks, argumentSdl_bare, fedAttrs_bare o, e, dirApps, s, List.append_assoc] using this
 
 theorem directiveLocations_names : ∀ l ∈ directiveLocations, isName l = true := by decide
 
-theorem Lx_dirDef (o : Opts) (ho : o.federation = false) (d : DirDef) (hd : SkelDirDef d) (rest : Text) (ts : List Tok)
-    (h : Lx rest ts) : Lx (directiveSdl Defects.none o d ++ '\n' :: rest) (dirDefToks d ++ ts) := by
+theorem Lx_dirDef (o : Opts) (d : DirDef) (hd : SkelDirDef d) (rest : Text) (ts : List Tok)
+    (h : Lx rest ts) : Lx (directiveSdl Defects.none o d ++ '\n' :: rest) (dirDefToks o d ++ ts) := by
   have hnl := Lx.ign (c := '\n') (by decide) h
   have hlocN : ∀ l ∈ d.locs, isName l = true := by
     intro l hl
@@ -95,12 +98,12 @@ theorem Lx_dirDef (o : Opts) (ho : o.federation = false) (d : DirDef) (hd : Skel
     · simp only [s, ↓reduceIte]; exact nameEnd_of_ignored ' ' _ (by decide)
   have hargs : Lx (d.name ++ ((if d.args.isEmpty then [] else '(' :: joinSep (s ", ") (d.args.map argumentSdl) ++ [')']) ++
         ((if d.repeatable then s " repeatable" else []) ++ ' ' :: (kw "on" ++ ' ' :: (joinSep [' ', '|', ' '] d.locs ++ '\n' :: rest)))))
-      (.name d.name :: ((if d.args.isEmpty then [] else .punct '(' :: ivsToks (d.args.map bare) ++ [.punct ')']) ++
+      (.name d.name :: ((if d.args.isEmpty then [] else .punct '(' :: ivsToks o (d.args.map bare) ++ [.punct ')']) ++
         ((if d.repeatable then [.name (kw "repeatable")] else []) ++ (.name (kw "on") :: (sepToks '|' d.locs ++ ts))))) := by
     by_cases he : d.args = []
     · simpa [he] using Lx.name hd.name hrepN hrep
     · have hne : d.args.isEmpty = false := by simpa using he
-      have h1 := Lx.punct (c := '(') (by decide) (Lx_dirDefArgs o ho d.args he hd.args _ _ hrep)
+      have h1 := Lx.punct (c := '(') (by decide) (Lx_dirDefArgs o d.args he hd.args _ _ hrep)
       have := Lx.name hd.name (nameEnd_of_punct '(' _ (by decide)) h1
       simpa [hne, List.append_assoc] using this
   have h2 := Lx.nameI (n := kw "directive") (c := ' ') (by decide) (by decide) (Lx.punct (c := '@') (by decide) hargs)
@@ -112,40 +115,40 @@ theorem Lx_dirDef (o : Opts) (ho : o.federation = false) (d : DirDef) (hd : Skel
   rw [e]
   simpa [dirDefToks, List.append_assoc] using h3
 
-theorem Lx_dirDefs (o : Opts) (ho : o.federation = false) (ds : List DirDef) (hds : ∀ d ∈ ds, SkelDirDef d) (rest : Text)
+theorem Lx_dirDefs (o : Opts) (ds : List DirDef) (hds : ∀ d ∈ ds, SkelDirDef d) (rest : Text)
     (ts : List Tok) (h : Lx rest ts) :
-    Lx ((ds.map (fun d => directiveSdl Defects.none o d ++ ['\n'])).flatten ++ rest) (ds.flatMap dirDefToks ++ ts) := by
+    Lx ((ds.map (fun d => directiveSdl Defects.none o d ++ ['\n'])).flatten ++ rest) (ds.flatMap (dirDefToks o) ++ ts) := by
   induction ds with
   | nil => simpa using h
   | cons d ds ih =>
-    have := Lx_dirDef o ho d (hds d List.mem_cons_self) _ _ (ih (fun x hx => hds x (List.mem_cons_of_mem _ hx)))
+    have := Lx_dirDef o d (hds d List.mem_cons_self) _ _ (ih (fun x hx => hds x (List.mem_cons_of_mem _ hx)))
     simpa [List.append_assoc] using this
 
-theorem dirDefToks_end (d : DirDef) (r : List Tok) : DefEnd (dirDefToks d ++ r) := by
+theorem dirDefToks_end (o : Opts) (d : DirDef) (r : List Tok) : DefEnd (dirDefToks o d ++ r) := by
   unfold dirDefToks
   cases d.desc with
   | some x => exact DefEnd.str _ _
   | none => exact DefEnd.name _ _
 
-theorem dirDefsToks_end (ds : List DirDef) (r : List Tok) (hr : DefEnd r) : DefEnd (ds.flatMap dirDefToks ++ r) := by
+theorem dirDefsToks_end (o : Opts) (ds : List DirDef) (r : List Tok) (hr : DefEnd r) : DefEnd (ds.flatMap (dirDefToks o) ++ r) := by
   cases ds with
   | nil => simpa using hr
-  | cons d ds => simp only [List.flatMap_cons, List.append_assoc]; exact dirDefToks_end d _
+  | cons d ds => simp only [List.flatMap_cons, List.append_assoc]; exact dirDefToks_end o d _
 
 /-- a list of directive definitions followed by further definitions -/
-theorem pDefs_dirDefs_then (o : Opts) (ho : o.federation = false) (ds : List DirDef) (hds : ∀ d ∈ ds, SkelDirDef d)
+theorem pDefs_dirDefs_then (o : Opts) (ds : List DirDef) (hds : ∀ d ∈ ds, SkelDirDef d)
     (R : List Tok) (hR : DefEnd R) (hne : R ≠ []) :
-    ∀ g, pDefs (g + ds.length) (ds.flatMap dirDefToks ++ R) = (pDefs g R).map (ds.map dDirective ++ ·) := by
+    ∀ g, pDefs (g + ds.length) (ds.flatMap (dirDefToks o) ++ R) = (pDefs g R).map (ds.map dDirective ++ ·) := by
   induction ds with
   | nil => intro g; simp
   | cons d ds ih =>
     intro g
     have ihL := ih (fun t ht => hds t (List.mem_cons_of_mem _ ht)) g
-    have hend : DefEnd (ds.flatMap dirDefToks ++ R) := dirDefsToks_end ds R hR
-    have h2 := pDef_dirDef o ho d (hds d List.mem_cons_self) _ hend
+    have hend : DefEnd (ds.flatMap (dirDefToks o) ++ R) := dirDefsToks_end o ds R hR
+    have h2 := pDef_dirDef o d (hds d List.mem_cons_self) _ hend
     simp only [List.flatMap_cons, List.length_cons, List.append_assoc, List.map_cons]
     rw [← Nat.add_assoc, pDefs, h2]
-    cases hr : ds.flatMap dirDefToks ++ R with
+    cases hr : ds.flatMap (dirDefToks o) ++ R with
     | nil =>
       have : R = [] := (List.append_eq_nil_iff.mp hr).2
       exact absurd this hne
